@@ -42,7 +42,122 @@ def key_args(ops):
             out.append(unhex(t[1]))
         elif t[0] in ("iter_new", "foreach") and len(t) > 2:
             out.append(unhex(t[2]))
+        elif t[0] == "foreachs" and len(t) > 2:
+            if len(t) > 3:
+                out.append(unhex(t[3]))
+            out += [it[2] for it in parse_script(t[2]) if len(it) > 2 and it[2] is not None]
     return out
+
+
+# ------------------------------------------------------------------------------ scripted traversals
+def parse_script(s):
+    """SCRIPT of `foreachs STOP SCRIPT [PREFIX]` -> [(callback number, op, key bytes|None (= the key
+    shown), value, lvl)] ; items: N:rm:K  N:get:K  N:put:K:V[:LVL]  N:count"""
+    out = []
+    if s == "-":
+        return out
+    for item in s.split(","):
+        f = item.split(":")
+        n, op = int(f[0]), f[1]
+        if op == "count":
+            out.append((n, op))
+            continue
+        k = None if f[2] == "." else unhex(f[2])
+        if op == "put":
+            out.append((n, op, k, int(f[3]), int(f[4]) if len(f) > 4 else 0))
+        else:
+            out.append((n, op, k))
+    return out
+
+
+def script_ops_at(script, n, shown, lvl=True):
+    """the op lines (token lists) callback number n executes when it is shown `shown`"""
+    out = []
+    for it in script:
+        if it[0] != n:
+            continue
+        if it[1] == "count":
+            out.append(["count"])
+            continue
+        k = hexk(shown if it[2] is None else it[2])
+        if it[1] == "put":
+            out.append(["put", k, str(it[3])] + (["lvl=%d" % it[4]] if lvl and it[4] else []))
+        else:
+            out.append([it[1], k])
+    return out
+
+
+def parse_svisit(res):
+    """result line of foreachs -> ([(key|None, value, [inner result tokens])], complete) or None"""
+    if not res or res[0] != "visit" or len(res) < 3 or res[-1] not in ("end", "stop"):
+        return None
+    try:
+        n = int(res[1])
+        body = res[2:-1]
+        vis = []
+        i = 0
+        while i < len(body):
+            if body[i].startswith("=") or i + 1 >= len(body):
+                return None
+            k = None if body[i] == "null" else unhex(body[i])
+            v = int(body[i + 1])
+            i += 2
+            inner = []
+            while i < len(body) and body[i].startswith("="):
+                inner.append(body[i][1:])
+                i += 1
+            vis.append((k, v, inner))
+    except ValueError:
+        return None
+    if len(vis) != n:
+        return None
+    return vis, res[-1] == "end"
+
+
+SCRIPT_ITER = "63"
+
+
+def expand_scripted(ops, lines):
+    """A transcript in which every `foreachs` is replaced by what it is in the C code: iter_new,
+    iter_next + the operations of that callback, ..., iter_free on an iterator of its own (the notifier
+    lines of the whole traversal are put in front of the iter_free result).  -> (ops, lines, truncated);
+    truncated: the process ended inside a scripted traversal (what it was shown is then unknown)."""
+    if not any(o.startswith("foreachs") for o in ops):
+        return ops, lines, False
+    tr, outcome = parse_transcript(ops, lines)
+    nops, nl = [], []
+    trunc = False
+    for t, evs, res in tr:
+        evl = ["n %d %d %s %d %d" % (i, e, "null" if k is None else hexk(k), o, n) for i, e, k, o, n in evs]
+        if t[0] != "foreachs":
+            nops.append(" ".join(t))
+            nl += evl + ([" ".join(res)] if res is not None else [])
+            continue
+        pv = parse_svisit(res)
+        new = "iter_new " + SCRIPT_ITER + (" " + t[3] if len(t) > 3 else "")
+        if pv is None:
+            trunc = res is None
+            nops.append(new)
+            nl += evl + ([" ".join(res)] if res is not None else [])
+            continue
+        vis, complete = pv
+        script = parse_script(t[2])
+        nops.append(new)
+        nl.append("ok")
+        for j, (k, v, inner) in enumerate(vis, 1):
+            nops.append("iter_next " + SCRIPT_ITER)
+            nl.append("%s %d" % ("null" if k is None else hexk(k), v))
+            for o, r in zip(script_ops_at(script, j, k or b""), inner):
+                nops.append(" ".join(o))
+                nl.append(r)
+        if complete:
+            nops.append("iter_next " + SCRIPT_ITER)
+            nl.append("end")
+        nops.append("iter_free " + SCRIPT_ITER)
+        nl += evl + ["ok"]
+    if outcome and outcome.startswith(("SAN:", "CRASH", "TIMEOUT", "MODEL-")):
+        nl.append(outcome)
+    return nops, nl, trunc
 
 
 def has_high_byte(ops):
@@ -193,6 +308,75 @@ class _G:
             pfx = " " + hexk(self.prefix())
         self.ops.append("foreach %d%s" % (stop, pfx))
 
+    def foreachs(self):
+        """a traversal whose callback operates on the map: `foreachs STOP SCRIPT [PREFIX]`"""
+        r = self.rng
+        n = len(self.present)
+        ncb = max(1, min(n, 6))
+        sl = self.impl.endswith("sl")
+
+        def put(cb, k):
+            v = self.nextv
+            self.nextv += 1
+            lvl = ":%d" % r.choice([0, 0, 0, 1, 1, 2, 3, 4, 7, 8, 9, 12]) if sl else ""
+            return "%d:put:%s:%d%s" % (cb, k, v, lvl)
+
+        def other():
+            x = r.random()
+            if self.present and x < 0.6:
+                return hexk(r.choice(sorted(self.present)))
+            return hexk(r.choice(self.keys) if x < 0.85 else r.choice(self.near))
+        cb = r.randrange(1, ncb + 1)
+        x = r.random()
+        items = []
+        if x < 0.25:
+            # find the entry, remove it, stop (or go on)
+            items = ["%d:rm:." % cb]
+            if r.random() < 0.3:
+                items.append("%d:get:." % cb)
+            stop = cb if r.random() < 0.7 else r.choice([0, cb + 1, cb + 2])
+        elif x < 0.50:
+            # remove the entry the traversal is positioned on and put it back, look it up, replace it
+            items = ["%d:rm:." % cb, put(cb, ".")]
+            for _ in range(r.randrange(0, 4)):
+                y = r.random()
+                items.append("%d:get:." % cb if y < 0.4 else put(cb, ".") if y < 0.65 else "%d:count" % cb if y < 0.8
+                             else "%d:rm:." % cb)
+            stop = r.choice([0, 0, cb, cb + 1, ncb + 1])
+        else:
+            removed_shown = False
+            for _ in range(r.choice([1, 1, 2, 2, 3, 4, 6])):
+                c = r.randrange(1, ncb + 2)
+                y = r.random()
+                if y < 0.18:
+                    items.append("%d:rm:." % c)
+                    removed_shown = True
+                elif y < 0.36 and not (sl and removed_shown):
+                    items.append("%d:rm:%s" % (c, other()))
+                elif y < 0.46:
+                    items.append(put(c, "."))
+                elif y < 0.68:
+                    items.append(put(c, other()))
+                elif y < 0.80:
+                    items.append("%d:get:." % c)
+                elif y < 0.92:
+                    items.append("%d:get:%s" % (c, other()))
+                else:
+                    items.append("%d:count" % c)
+            items.sort(key=lambda it: int(it.split(":")[0]))      # stable: script order within a callback kept
+            stop = r.choice([0, 0, 0, cb, ncb, ncb + 1, r.randrange(1, ncb + 2)])
+        pfx = ""
+        if self.fl["prefix_iter"] and r.random() < 0.3:
+            pfx = " " + hexk(self.prefix())
+        self.ops.append("foreachs %d %s%s" % (stop, ",".join(items) or "-", pfx))
+        # steering only: keys named literally
+        for it in parse_script(",".join(items) or "-"):
+            if len(it) > 2 and it[2] is not None:
+                if it[1] == "put":
+                    self.present[it[2]] = it[3]
+                elif it[1] == "rm":
+                    self.present.pop(it[2], None)
+
     def notifier(self):
         r = self.rng
         x = r.random()
@@ -239,8 +423,10 @@ def gen_c17(rng, impl, nops=None):
             g.get()
         elif x < pput + 0.35:
             g.ops.append("count")
-        elif x < pput + 0.45:
+        elif x < pput + 0.41:
             g.foreach()
+        elif x < pput + 0.47:
+            g.foreachs()
         elif x < pput + 0.55:
             g.notifier()
         elif x < pput + 0.57:
@@ -557,6 +743,81 @@ def _check_visit(spec, t, res):
     return None
 
 
+def _check_scripted(spec, t, res, on_insert=None, on_rm=None, ever=None):
+    """`foreachs STOP SCRIPT [PREFIX]` against the dictionary, which is updated by the operations the
+    callbacks perform.  Returns (description|None, notifier calls expected over the whole traversal).
+    * every operation a callback performs gives the dictionary's result (get = latest put or nothing,
+      rm = 1 iff present, count = number of keys), at the moment it is performed;
+    * the pair a callback is shown is in the dictionary at that moment (and has the prefix);
+    * no key is shown twice unless a key was inserted during the traversal; in ascending order (ordered
+      flavours) as long as nothing was inserted;
+    * the traversal stops exactly at the STOP-th callback; when it runs to the end, every key present
+      from its beginning to its end was shown;
+    * notifier calls (checked by the caller, as a multiset over the traversal: a DELETED/FREE of an
+      entry removed while the traversal is positioned on it may come later, but before the traversal
+      returns): those of the dictionary operations performed."""
+    fl = spec.fl
+    stop = int(t[1])
+    try:
+        script = parse_script(t[2])
+    except (ValueError, IndexError):
+        return "malformed script", []
+    pfx = unhex(t[3]) if (len(t) > 3 and fl["prefix_iter"]) else None
+    pv = parse_svisit(res)
+    if pv is None:
+        return "malformed traversal result %r" % " ".join(res or [])[:200], []
+    vis, complete = pv
+    stable = set(spec.range(pfx))
+    returned = []
+    inserted = False
+    exp = []
+    okey = (lambda k: signed_key(k)) if fl["ordered"] == "signed" else (lambda k: k)
+    for j, (k, v, inner) in enumerate(vis, 1):
+        if k not in spec.d or spec.d[k] != v:
+            return "callback %d was shown %s which is not in the dictionary at that moment" % (j, _fmt([(k, v)])), exp
+        if pfx is not None and not k.startswith(pfx):
+            return "callback %d of a prefix traversal was shown key %s" % (j, hexk(k)), exp
+        if not inserted:
+            if k in returned:
+                return "callback %d was shown key %s a second time although nothing was inserted meanwhile" % (j, hexk(k)), exp
+            if fl["ordered"] and returned and not okey(returned[-1]) < okey(k):
+                return "callback %d was shown key %s after %s: not in ascending order" % (j, hexk(k), hexk(returned[-1])), exp
+        returned.append(k)
+        if stop > 0 and j > stop:
+            return "traversal went on after its callback had stopped it at call %d" % stop, exp
+        todo = script_ops_at(script, j, k)
+        if len(inner) != len(todo):
+            return "callback %d performed %d operations, its script has %d" % (j, len(inner), len(todo)), exp
+        for o, r in zip(todo, inner):
+            if o[0] == "put":
+                kk = unhex(o[1])
+                if kk not in spec.d:
+                    inserted = True
+                    if on_insert:
+                        on_insert(kk)
+                if ever is not None:
+                    ever.add(kk)
+            elif o[0] == "rm":
+                stable.discard(unhex(o[1]))
+                if on_rm:
+                    on_rm(unhex(o[1]))
+            eevs, eres = apply_op(spec, o)
+            exp += eevs
+            if [r] != eres:
+                return "callback %d, `%s`: result `%s`, a dictionary gives `%s`" % (j, " ".join(o), r, " ".join(eres)), exp
+    n = len(vis)
+    if complete:
+        if stop > 0 and n >= stop:
+            return "traversal made %d callbacks and ran to the end although the callback stops it at call %d" % (n, stop), exp
+        missing = stable - set(returned)
+        if missing:
+            return "complete traversal did not show %s, present during the whole traversal" % ",".join(
+                hexk(k) for k in sorted(missing)), exp
+    elif n != stop:
+        return "traversal stopped after %d callbacks, its callback stops it at call %d" % (n, stop), exp
+    return None, exp
+
+
 def _fmt(pairs):
     return "[" + " ".join("%s:%d" % ("null" if k is None else hexk(k), v) for k, v in pairs) + "]"
 
@@ -611,6 +872,14 @@ def oracle_c17(ops, lines):
                 return where + d
             if evs:
                 return where + "unexpected notifier calls during a traversal " + _fmt_evs(evs)
+            continue
+        if t[0] == "foreachs":
+            d, eevs = _check_scripted(spec, t, res)
+            if d:
+                return where + d
+            if collections.Counter(evs) != collections.Counter(eevs):
+                return where + "notifier calls during the traversal %s, expected (once each, before it returns) %s" % (
+                    _fmt_evs(evs), _fmt_evs(eevs))
             continue
         if t[0] in ("iter_new", "iter_next", "iter_free"):
             continue        # C18's business
@@ -710,6 +979,19 @@ def oracle_c18(ops, lines):
             if d:
                 return where + d
             continue
+        if t[0] == "foreachs":
+            def _ins(k):
+                for w in watches.values():
+                    w["inserted"] = True
+
+            def _rm(k):
+                for w in watches.values():
+                    w["stable"].discard(k)
+            d, eevs = _check_scripted(spec, t, res, _ins, _rm, ever)
+            if d:
+                return where + d
+            exp_evs.update(eevs)
+            continue
         if t[0] == "destroy" and watches:
             if res != ["EBUSY"]:
                 return where + "harness destroyed a map with open iterators"
@@ -759,8 +1041,40 @@ def compare_exact(ops, il, ml):
 # ------------------------------------------------------------------------------ coverage tags
 def tags(ops, lines):
     """which interesting situations a case reached (evidence: distinct_nontrivial, hit:<tag>)"""
-    tr, outcome = parse_transcript(ops, lines)
     tg = set()
+    if any(o.startswith("foreachs") for o in ops):
+        # scripted traversals: their own tags, then the tags of the equivalent iterator history
+        for t, evs, res in parse_transcript(ops, lines)[0]:
+            pv = parse_svisit(res) if t[0] == "foreachs" else None
+            if pv is None:
+                continue
+            vis, complete = pv
+            script = parse_script(t[2])
+            tg.add("scripted-" + ("end" if complete else "stop"))
+            for j, (k, v, inner) in enumerate(vis, 1):
+                todo = script_ops_at(script, j, k or b"")
+                done = [(o, r) for o, r in zip(todo, inner)]
+                gone = False
+                for o, r in done:
+                    shown = len(o) > 1 and o[1] == hexk(k or b"")
+                    if o[0] == "rm" and shown and r == "1":
+                        gone = True
+                        tg.add("scripted-rm-shown")
+                    elif o[0] == "rm" and r == "1":
+                        tg.add("scripted-rm-other")
+                    elif o[0] == "put" and shown and gone:
+                        gone = False
+                        tg.add("scripted-reput-shown")
+                    elif o[0] == "put":
+                        tg.add("scripted-put")
+                    elif o[0] == "get" and shown and gone:
+                        tg.add("scripted-get-removed-shown")
+                if gone and j == len(vis) and not complete:
+                    tg.add("scripted-rm-shown-then-stop")
+                if gone and evs:
+                    tg.add("scripted-deferred-delete")
+        ops, lines, _ = expand_scripted(ops, lines)
+    tr, outcome = parse_transcript(ops, lines)
     present = {}
     parked = {}
     open_ = set()
@@ -843,6 +1157,7 @@ def k_c18_ht(ops, lines):
     """Class predicate K_C18_ht / K_C18_trie on a transcript: some rm/put/get/nadd/ndel names, or some
     iterator returns, a key while it is removed-but-referenced (an iterator's last returned key that has been removed and
     not yet left by every iterator parked on it)."""
+    ops, lines, _ = expand_scripted(ops, lines)
     tr, _ = parse_transcript(ops, lines)
     parked = {}
     zombies = set()
@@ -896,6 +1211,9 @@ def k_c18_sl(ops, lines):
     array is read, ...) is outside the class."""
     if impl_of(ops) != "sl":
         return False
+    ops, lines, trunc = expand_scripted(ops, lines)
+    if trunc:
+        return True      # died inside a scripted traversal: what it was positioned on is not in the transcript
     tr, outcome = parse_transcript(ops, lines)
     HDR = ("hdr", 0)
     lst = []              # keys in the list, ascending
@@ -993,6 +1311,7 @@ def k_c18_trie_split(ops, lines):
     holding P is not the one that is split)."""
     if impl_of(ops) != "trie":
         return False
+    ops, lines, _ = expand_scripted(ops, lines)
     tr, _ = parse_transcript(ops, lines)
     parked = {}
     present = set()
